@@ -183,6 +183,12 @@ func (c *Ctx) OverBudget() bool { return !c.Deadline.IsZero() && time.Now().Afte
 func (c *Ctx) Violate(key, what string, replay interface{}) {
 	c.mu.Lock()
 	defer c.mu.Unlock()
+	if strings.Contains(what, ExternalKillMarker) {
+		// a worker the host killed (three times in a row): a cap of this run, never a verdict about the code under test
+		c.caps = append(c.caps, "worker killed from outside the harness ("+key+"): that part of the enumeration was not completed")
+		c.Exhaustive = false
+		return
+	}
 	if c.seenKeys[key] {
 		return
 	}
